@@ -71,3 +71,24 @@ Theorem C11_translate_end_marker :
          switch (translate_cases (symbols_of v) isnt) (-1) = Some 1.
 Proof. exact EmitTranslate.translate_end_marker. Qed.
 Print Assumptions C11_translate_end_marker.
+
+From YG Require Import LRBase CompleteDriver Pipeline PipelineConds.
+Close Scope Z_scope.
+Open Scope nat_scope.
+
+(* 'any other integer to an error': the default of the translate switch is symbol 0, and the column of symbol 0 holds the error action in every state of every emitted table - so a token code the grammar does not know is a syntax error wherever it arrives (C06: reported through the error channel) *)
+Theorem C11_unknown_code_is_error :
+  forall gi : ginfo,
+         (forall r d : nat, nth_error (rhs_of (gi_rules gi) r) d <> Some 0) ->
+         lhs_of (gi_rules gi) 0 = 0 ->
+         (forall r d : nat, nth_error (rhs_of (gi_rules gi) r) d <> Some eof) ->
+         rhs_of (gi_rules gi) 0 = [start_user (gi_rules gi)] ->
+         ~ is_nt (gi_rules gi) eof ->
+         (forall (seq : list nat) (l : nat),
+          ~ is_nt (gi_rules gi) l -> exists b : nat, first_seq (gi_rules gi) (seq ++ [l]) b) ->
+         eof < gi_nsyms gi ->
+         forall t : tables,
+         generate_tables gi = inr t ->
+         forall s : nat, s < length (t_aut t) -> dense_action (length (t_aut t)) (t_dense t) s 0 = Error.
+Proof. exact PipelineConds.unknown_code_is_error. Qed.
+Print Assumptions C11_unknown_code_is_error.
